@@ -1,6 +1,6 @@
 //! C04 — BWT, less, Occ (all sampling rates), inverse BWT.
 //!
-//! `<text> k:<k> a:<alphabet> q:<query symbols>`
+//! `t <text> k:<k> a:<alphabet> q:<query symbols>`
 //!    => `<sa>;<bwt>;<less[c] for c in q>;<col(c)>/…  for c in q;<invert_bwt(bwt) or ->`
 //! col(c) = Occ.get(bwt, r, c) for r = 0..n-1, printed as `d<digits>` (first value and successive differences, one
 //! digit each) when all differences are in 0..=9, else as `v<v0>,<v1>,…`.
@@ -126,7 +126,7 @@ fn case(rng: &mut Rng, i: usize) -> String {
     if (b'$' as usize) < m && !q.contains(&b'$') {
         q.push(b'$');
     }
-    format!("{} k:{} a:{} q:{}", hex(&t), k, hex(&a), hex(&q))
+    format!("t {} k:{} a:{} q:{}", hex(&t), k, hex(&a), hex(&q))
 }
 
 pub fn gen(tier: &str, rng: &mut Rng, out: &mut Vec<String>) {
@@ -137,13 +137,13 @@ pub fn gen(tier: &str, rng: &mut Rng, out: &mut Vec<String>) {
 }
 
 pub fn exec(toks: &[&str]) -> Result<String, String> {
-    if toks.len() != 4 {
+    if toks.len() != 5 || toks[0] != "t" {
         return Err("arity".into());
     }
-    let t = unhex(toks[0])?;
-    let k: usize = parse(kv(toks[1], "k")?)?;
-    let a = unhex(kv(toks[2], "a")?)?;
-    let q = unhex(kv(toks[3], "q")?)?;
+    let t = unhex(toks[1])?;
+    let k: usize = parse(kv(toks[2], "k")?)?;
+    let a = unhex(kv(toks[3], "a")?)?;
+    let q = unhex(kv(toks[4], "q")?)?;
     if t.is_empty() || t.len() > 100_000 {
         return Err("text length".into());
     }
